@@ -60,6 +60,7 @@ LINES = {
     'BLANK': ('pure', '', ''),
     'BAD1': ('bad', 'oops', ''),
     'BAD2': ('bad', 'w = 3 = y', ''),
+    'BAD3': ('bad', 'q', ''),
 }
 LAGSP = ['(k-1)', '(t-1)', ' (k -1 )']
 SPACINGS = ['none', 'single', 'tabs']
@@ -130,7 +131,10 @@ def same_pairs(got, want):
     return True
 
 
-def classify_check(text, case):
+OTHER_BLOCK = 'aa = 2*bb + 1\nbb = aa(k-1)\ncc(0) = 7.\noops again\nMaxTime = 9\nErr_Tolerance = 1e-3\n# exogenous\ndd = [1., 2.]'
+
+
+def classify_check(text, case, reuse=False):
     """Compare the real parser with the independent reader. Returns list of violations."""
     viols = []
 
@@ -139,6 +143,9 @@ def classify_check(text, case):
     want = exact.read_block(text)
     p = EquationParser()
     try:
+        if reuse:
+            # the same parser object has parsed another block before: nothing of it may remain
+            p.ParseString(OTHER_BLOCK)
         msg = p.ParseString(text)
     except Exception as e:
         V('parser-raises:' + type(e).__name__, 'ParseString raised %r' % (e,))
@@ -193,6 +200,11 @@ def full_check(text, case, solve=True):
     viols = classify_check(text, case)
     if viols:
         return viols
+    viols = classify_check(text, dict(case, reused_parser=True), reuse=True)
+    if viols:
+        for v in viols:
+            v['key'] = 'reused-parser:' + v['key']
+        return viols
     twin = strip_comments(text)
     if twin != text:
         v2 = classify_check(twin, dict(case, twin=True))
@@ -242,6 +254,7 @@ def endogenous_sets(tier):
     sets.append(['S1', 'S2', 'T', 'LAGT', 'ET', 'MT'][:n])
     sets.append(['S1', 'S2', 'C1', 'BAD1', 'C2', 'MT'][:n])
     sets.append(['S1', 'S2', 'BAD2', 'C3', 'C5', 'BLANK'][:n] + ['MT'])
+    sets.append(['S1', 'S2', 'BAD3', 'IC', 'ET', 'LAG'][:n])       # no MaxTime line: the horizon stays at its default 0
     if n >= 7:
         sets.append(['S1', 'S2', 'LAG', 'USE', 'IC', 'C1', 'MT'])
     return sets
@@ -301,7 +314,8 @@ def run_unit(unit, tier):
         res['samples'] = [{'block': build_text(lines, 'single', LAGSP[0], {lines[1]: 'Exogenous spending'})}]
     elif part == 'markers':
         lines = ['S1', 'S2', 'LAG', 'USE', 'IC', 'MT']
-        for marker in ('# Exogenous Variables', 'exogenous', 'Exogenous = crunk', '   # the EXOGENOUS block', '#exogenous'):
+        for marker in ('# Exogenous Variables', 'exogenous', 'Exogenous = crunk', '   # the EXOGENOUS block', '#exogenous',
+                       'Exogenous Variables # start of the section', 'exogenous#x', ' EXOGENOUS  # = 3'):
             for spacing in SPACINGS:
                 text = build_text(lines, spacing, LAGSP[0], marker=marker)
                 case = {'part': 'markers', 'marker': marker, 'spacing': spacing}
@@ -311,7 +325,7 @@ def run_unit(unit, tier):
                 res['nontrivial'] += 1
                 core.bump(res['outcomes'], 'markers:' + ('ok' if not viols else 'violation'))
                 res['violations'].extend(viols[:1])
-        res['samples'] = [{'marker spellings': 5}]
+        res['samples'] = [{'marker spellings': 8}]
     else:
         base = model_series('', '')
         for desc in HOSTILE + ['# Exogenous Variables', 'MaxTime = 1']:
